@@ -25,6 +25,8 @@ def run(ctx, R, tier):
     from .c06 import ungated
     ungated(F, R, rule='B.C05.speed-ungated')
     torn(F, R)
+    from ..enginea import run_singular_only
+    run_singular_only(R, F, lambda fn: fn.startswith('clock::') or '<clock::' in fn, floor=5)
 
 
 def order(F, R):
